@@ -162,3 +162,38 @@ def run(ctx):
                         work.append(m.group(0))
     ctx.floor("local ADTs reachable from Automerge's fields", len(seen), 10)
     ctx.ob("R2-gen", "Automerge|no-interior-mutability", not hits, f.adts[DOC]["sp"], "interior-mutability fields: %s" % hits if hits else "%d reachable local types scanned" % len(seen))
+    # ---- capabilities: the catch-up after a read-only phase depends on the peer's SyncReset capability being the one that is tested
+    ctx.rule("R2-cap", "every sync::Capability variant recorded from incoming messages is tested by exactly one State predicate, and no two predicates test the same variant")
+    CAP = "automerge::sync::Capability"
+    cap = f.adts.get(CAP)
+    if cap is None:
+        raise facts.AnchorMissing(CAP)
+    tested = {}
+    for p, r in f.fns.items():
+        if r["ckey"] != ("automerge", "lib") or "automerge::sync::state::State::" not in norm_fn(p):
+            continue
+        for blk in r["blocks"]:
+            for st in blk["st"]:
+                for o in st["rv"].get("o", ()):
+                    k = util.op_const(o)
+                    if k and CAP in (k.get("ty") or ""):
+                        for adt, var in k.get("paggs", []):
+                            if adt == CAP:
+                                tested.setdefault(var, set()).add(norm_fn(p).split("::{closure")[0])
+    recorded = set()
+    rb = ctx.body(INNER)
+    for blk in rb.blocks:
+        for st in blk["st"]:
+            if st["rv"]["k"] == "Agg" and st["rv"].get("adt") == CAP:
+                recorded.add(st["rv"]["variant"])
+    ctx.floor("capabilities recorded from incoming messages", len(recorded), 2)
+    for v in sorted(recorded):
+        fns = tested.get(v, set())
+        ctx.ob("R2-cap", "Capability::%s is consulted" % v, len(fns) == 1, rb.rec["sp"], "tested by %s" % sorted(fns) if len(fns) == 1 else
+               "the capability is recorded from incoming messages but %s" % ("no State predicate tests it (a peer that advertises it is treated like one that does not)" if not fns else "tested by several predicates %s" % sorted(fns)))
+    by_fn = {}
+    for v, fns in tested.items():
+        for fn in fns:
+            by_fn.setdefault(fn, set()).add(v)
+    dup = {v: sorted(fns) for v, fns in tested.items() if len(fns) > 1}
+    ctx.ob("R2-cap", "no two predicates test the same capability", not dup, "", "%s" % (dup or {fn.split("::")[-1]: sorted(v) for fn, v in by_fn.items()}))
